@@ -288,6 +288,10 @@ class StmtMixin:
         return self.iter_mode_special(it, fr)
 
     def iter_mode_special(self, it, fr):
+        if isinstance(it, VObj) and it.cls == "<opaque>":
+            ln = z3.Int(f"len({it.ref})")
+            self.assume_axiom(ln >= 0)
+            return "opaque", (it, ln)
         raise Unsupported(f"iteration over {it!r}")
 
     def iter_len(self, mode, aux):
@@ -303,6 +307,8 @@ class StmtMixin:
             return z3.IntVal(len(aux.items))
         if mode == "seqz":
             return z3.Length(aux.t)
+        if mode == "opaque":
+            return aux[1]
         raise Unsupported(mode)
 
     def iter_item(self, mode, aux, i, st, fr):
@@ -327,6 +333,8 @@ class StmtMixin:
             raise Unsupported("symbolic iteration over tuple")
         if mode == "seqz":
             return VAtom(aux.t[i])
+        if mode == "opaque":
+            return VObj(self.new_ref(aux[0].ref + "[i]"), "<opaque>")
         raise Unsupported(mode)
 
     def havoc_targets(self, st, fr):
@@ -426,6 +434,8 @@ class StmtMixin:
                 cur = self.get_field(v, last)
                 if isinstance(cur, VList):
                     self.havoc_payload(cur.ref, path)
+                elif isinstance(cur, VObj) and cur.cls.startswith("<"):
+                    self.heap[(v.ref, last)] = VObj(self.new_ref(path), cur.cls)
                 elif isinstance(cur, VObj):
                     self.havoc_object(cur, path)
                 else:
